@@ -74,7 +74,7 @@ def gen_case(rng, ctx):
         scls, sch = gen.scheme(rng, "S1 S1 S11 S3")
         return {"ds": ds, "scheme": sch, "dcls": "D11-mixed", "scls": scls, "bound": rng.choice([2, 3, 3]),
                 "aux": rng.choice(AUX), "libseed": rng.randrange(10 ** 6), "other": rng.choice(OTHERS)}
-    cls, ds = gen.dataset(rng, classes="D11 D11 D11 D11 D9 D9 D7 D10 D3 D4 D8 D2 D2 D2 D15 D15 D13 D20 D20 D20", nmax=nmax, mmax=6)
+    cls, ds = gen.dataset(rng, classes="D11 D11 D11 D11 D9 D9 D7 D10 D3 D4 D8 D2 D2 D2 D15 D15 D13 D20 D20 D20 D14 D14", nmax=nmax, mmax=6)
     ds = libx.normalise_raw(ds)
     scls, sch = gen.scheme(rng, "S1 S1 S2 S3 S3 S3 S6 S9 S11 S11 S16 S16")
     return {"ds": ds, "scheme": sch, "dcls": cls, "scls": scls, "bound": rng.choice([0, 2, 2, 3, 80]),
